@@ -85,6 +85,8 @@ def main():
             print(p, "rc=%d" % r.returncode, "%.0fs" % (time.time() - t))
             for l in lines[:6]:
                 print("   ", l[:300])
+        if os.environ.get("SEEDED_NO_WRITE"):
+            return 0
         crp = os.path.join(sd, "check_result.json")
         if os.path.exists(crp):      # keep the results of checks not re-run this time
             old = json.load(open(crp))
